@@ -230,8 +230,6 @@ package plugin
 //@   ensures [opens-no-connection] forall p deployer.Plugin :: openconn(p) ==> old(openconn(p))
 //@   ensures [a-cancelled-run-is-signalled-or-force-closed] called(hasCancellationHandler, 1) ==> \
 //@        (callres(hasCancellationHandler, 1, 0) ==> called(cancelStep, 1)) && (!callres(hasCancellationHandler, 1, 0) ==> called(forceCloseInternal, 1))
-//@   ensures [no-result-after-the-signal-means-forced-close] called(cancelStep, 1) && result != nil && !called(transitionRunningStage, 1) && called(time.After, 1) && \
-//@        callres(hasCancellationHandler, 1, 0) ==> true
 //
 //@ func (*runningStep).postDeployment
 //@   opt goroutine run
